@@ -1,11 +1,11 @@
 PLAN['C04'] = dict(
     level='exploration',
-    units=std_units('C04', [('asan', 'sdcz', 1500, 60000), ('plain', 'sdcz', 500, 20000)], chunk=100),
+    units=std_units('C04', [('asan', 'sdcz', 1500, 150000), ('plain', 'sdcz', 500, 50000)], chunk=100),
     rule='exactly singular matrices by construction (empty rows/columns in any number and position, Hall violations without empty lines, proportional row/column pairs with +-2^k or small-integer data) and exactly nonsingular controls (permuted triangular), '
          'through ?gstrf (FE_INEXACT exactness witness), ?gssv, ?gssvx and ?gssvx refactorizations that reuse remembered row pivots (thresholds incl. 0); clause "reported exactly when" is asserted only on executions witnessed exact or with rounding-immune deficiency; '
          'non-trivial = a singular return was inspected or the verdict was decided; distinct = hash(pattern, route, ColPerm, storage, outcome)',
     counter_names=['singular returns inspected (candidates zero, leading block, B untouched)', 'executions with FE_INEXACT clear'],
-    min_nontrivial={'quick': 1000, 'thorough': 10000},
+    min_nontrivial={'quick': 1000, 'thorough': 60000},
     require_tags={'quick': ['decided-by=exact-run', 'decided-by=immune', 'kind=hall', 'kind=dup-row', 'kind=nonsingular', 'route=gssv', 'route=gssvx', 'route=gssvx-refactor', 'refactor=done', 'info=singular']},
     assumptions=['FE_INEXACT clear between entry and return of ?gstrf implies every floating-point operation of that call was exact', 'the floating-point counterexample of DESIGN.md (structurally singular, inexact run, info=0) is inherent and not asserted'],
 )
